@@ -237,7 +237,7 @@ func (RaceScenario) Execute(sim *sched.Sim, ci interface{}, prop string, race bo
 		sim.Optional[p] = true
 	}
 	sim.RoleOf = roleOf
-	sim.Canon = newCanon().canon
+	useCanon(sim)
 	setRaceHooks(sim.Yield)
 	defer setRaceHooks(nil)
 
